@@ -99,6 +99,52 @@ func genSource(repo, out string) {
 				}
 				sum := sha256.Sum256([]byte(text))
 				entries = append(entries, entry{name, fmt.Sprintf("%x", sum[:8]), text})
+				// an operation of the regular shape  guards* ; request := messages.X{…} ; … sendto[T](…) …  is also
+				// entered in four parts, so that a property depends only on the part its model transcribes
+				if fd, ok := d.(*ast.FuncDecl); ok && dir == "uhppote" && fd.Recv != nil && fd.Body != nil && ast.IsExported(fd.Name.Name) {
+					pr := func(n ast.Node) string {
+						var b bytes.Buffer
+						(&printer.Config{Mode: printer.UseSpaces | printer.TabIndent, Tabwidth: 4}).Fprint(&b, fs, n)
+						return b.String()
+					}
+					reqAt, sendAt := -1, -1
+					for i, st := range fd.Body.List {
+						txt := pr(st)
+						if reqAt < 0 {
+							if as, ok := st.(*ast.AssignStmt); ok && len(as.Lhs) == 1 && pr(as.Lhs[0]) == "request" && strings.HasPrefix(pr(as.Rhs[0]), "messages.") {
+								reqAt = i
+							}
+						} else if sendAt < 0 && strings.Contains(txt, "sendto[") {
+							sendAt = i
+						}
+					}
+					if reqAt >= 0 && sendAt > reqAt {
+						seg := func(a, b int) string {
+							parts := []string{}
+							for _, st := range fd.Body.List[a:b] {
+								parts = append(parts, pr(st))
+							}
+							return strings.Join(parts, "\n")
+						}
+						sig := pr(fd.Type)
+						call := ""
+						ast.Inspect(fd.Body.List[sendAt], func(n ast.Node) bool {
+							if ce, ok := n.(*ast.CallExpr); ok && call == "" && strings.HasPrefix(pr(ce.Fun), "sendto[") {
+								call = pr(ce)
+							}
+							return true
+						})
+						for _, part := range []struct{ tag, text string }{
+							{"#guards", "func " + fd.Name.Name + sig + "\n" + seg(0, reqAt)},
+							{"#request", seg(reqAt, sendAt)},
+							{"#send", call},
+							{"#result", seg(sendAt, len(fd.Body.List))},
+						} {
+							h := sha256.Sum256([]byte(part.text))
+							entries = append(entries, entry{name + part.tag, fmt.Sprintf("%x", h[:8]), part.text})
+						}
+					}
+				}
 			}
 		}
 	}
